@@ -173,6 +173,52 @@ def mutate_string(s, rng):
     return s[::-1] if s[::-1] != s else s + "y"
 
 
+ESC = {"n": "\n", "t": "\t", "r": "\r", "b": "\b", "f": "\f", "/": "/"}
+
+
+def respellings(v):
+    """strings that a sloppy (un)escaping step could confuse with v: a backslash-letter pair replaced by the
+    character it would denote as a JSON escape, and the reverse"""
+    out = []
+    for i in range(len(v) - 1):
+        if v[i] == "\\" and v[i + 1] in ESC:
+            out.append(v[:i] + ESC[v[i + 1]] + v[i + 2:])
+        if v[i] == "\\" and v[i + 1] == "u" and len(v) >= i + 6:
+            try:
+                out.append(v[:i] + chr(int(v[i + 2:i + 6], 16)) + v[i + 6:])
+            except ValueError:
+                pass
+    for ch, letter in (("\n", "n"), ("\t", "t"), ("\r", "r")):
+        i = v.find(ch)
+        if i >= 0:
+            out.append(v[:i] + "\\" + letter + v[i + 1:])
+    return [x for x in out if x != v][:3]
+
+
+def match_prefix_variants(rule):
+    """a MATCH rule with one optional IN prefix added (empty or not), emptied or removed"""
+    out = []
+    r = list(rule)
+    try:
+        w = r.index("WITH")
+        f = len(r) - 2          # "FROM" position
+    except ValueError:
+        return out
+    if r[2] == "IN" and w == 4:
+        out.append(r[:2] + r[4:])                    # source prefix removed
+        out.append(r[:3] + [""] + r[4:])             # source prefix emptied
+    elif w == 2:
+        out.append(r[:2] + ["IN", ""] + r[2:])       # empty source prefix added
+        out.append(r[:2] + ["IN", "src"] + r[2:])
+    if r[f - 2] == "IN" and f - 2 > w:
+        out.append(r[:f - 2] + r[f:])
+        out.append(r[:f - 1] + [""] + r[f:])
+    elif r[f] == "FROM":
+        out.append(r[:f] + ["IN", ""] + r[f:])
+        out.append(r[:f] + ["IN", "dst"] + r[f:])
+    return [x for x in out if x != rule]
+
+
 def single_edits(signed, rng, limit=None):
     """enumerate single-field edits of a signed document: yields (description, new_doc).
     Every leaf and every container of the document is visited (the enumerator walks the
@@ -191,7 +237,12 @@ def single_edits(signed, rng, limit=None):
                 edits.append((path, "set", v - 1))
         elif isinstance(v, str):
             edits.append((path, "set", mutate_string(v, rng)))
+            for alt in respellings(v):
+                edits.append((path, "respell", alt))
         elif isinstance(v, list):
+            if v and v[0] == "MATCH" and all(isinstance(x, str) for x in v):
+                for alt in match_prefix_variants(v):
+                    edits.append((path, "match_prefix", alt))
             if v:
                 edits.append((path, "del_elem", rng.randrange(len(v))))
                 edits.append((path, "dup_elem", rng.randrange(len(v))))
@@ -206,11 +257,15 @@ def single_edits(signed, rng, limit=None):
         if isinstance(parent, dict):
             edits.append((path, "delete_member", None))
     if limit is not None and len(edits) > limit:
-        edits = rng.sample(edits, limit)
+        special = [e for e in edits if e[1] in ("respell", "match_prefix")]
+        rest = [e for e in edits if e[1] not in ("respell", "match_prefix")]
+        keep = rng.sample(special, min(len(special), max(1, limit // 3))) if special else []
+        edits = keep + rng.sample(rest, min(len(rest), limit - len(keep)))
+        rng.shuffle(edits)
     for path, kind, arg in edits:
         d = copy.deepcopy(signed)
         try:
-            if kind == "set":
+            if kind in ("set", "respell", "match_prefix"):
                 set_at(d, path, arg)
             elif kind == "del_elem":
                 del get_at(d, path)[arg]
@@ -268,3 +323,21 @@ def verdicts(obs):
 
 def harness_failed(obs):
     return any(k in obs for k in ("crash", "watchdog", "missing", "harness_error")) or "runs" not in obs
+
+
+def unknown_scheme_keys(binpath):
+    """RSA public keys declared with a signature scheme the library does not know: such a key can be listed and
+    authorised, but nothing can validly verify under it.  Returns [{"pub": json, "keyid": id}]"""
+    W = World(binpath)
+    paths = []
+    for name, scheme in (("rsa-2048-a", "rsassa-pss-md5"), ("rsa-2048-b", "ed448"), ("rsa-3072-a", "")):
+        pub = W.pub(name)
+        pub.pop("keyid", None)
+        pub["scheme"] = {"Unknown": scheme}
+        paths.append({"how": "json", "value": pub})
+    o = common.run_batch(binpath, [{"op": "keys12", "paths": paths}])[0]
+    out = []
+    for p in o.get("paths", []):
+        if "ok" in p:
+            out.append({"pub": p["ok"]["pub"], "keyid": p["ok"]["keyid"]})
+    return out
